@@ -378,6 +378,34 @@ func runC10(c *Ctx) {
 			c.SpecFail("proxy-gzip", in, "proxied: "+outs[1], "direct: "+outs[0], "C10/U/gzip-reply", "with gzip negotiated the client does not receive through the proxy what it receives directly")
 		}
 	}
+	// request sizes that grow by less than 2x from call to call, from 1.5 kB up: the receive buffer is
+	// grown from what an earlier call left in the pool
+	for sz := 1500; sz < 1_300_000; sz = sz * 19 / 10 {
+		d := make([]byte, sz)
+		c.Rng.Read(d)
+		var outs [2]string
+		for k, conn := range []*grpc.ClientConn{bcc, fcc} {
+			id++
+			cid := fmt.Sprint("g", id)
+			ctx, cancel := context.WithTimeout(metadata.NewOutgoingContext(context.Background(), metadata.Pairs("x-c10-id", cid, "x-c10-script", "0,0,-2")), 3*time.Second)
+			err := conn.Invoke(ctx, "/"+fxPkg+".Back/U", reqWithData(backFx, d), backFx.NewMsg("Reply"))
+			cancel()
+			bk.mu.Lock()
+			seen := bk.seen[cid]
+			got := "<nothing>"
+			if seen != nil && len(seen.msgs) == 1 {
+				got = fmt.Sprintf("%x", sha256.Sum256([]byte(seen.msgs[0])))
+			}
+			delete(bk.seen, cid)
+			bk.mu.Unlock()
+			outs[k] = fmt.Sprintf("%v backend-got=%s", status.Code(err), got)
+		}
+		in := fmt.Sprintf("U with a request of %d bytes (sizes growing 1.9x per call)", sz)
+		c.Eval("proxy-growing", in, true)
+		if outs[0] != outs[1] {
+			c.SpecFail("proxy-growing", in, "proxied: "+outs[1], "direct: "+outs[0], "C10/U/growing-request", "a request that is less than twice the size of an earlier one does not reach the backend through the proxy")
+		}
+	}
 	earlyOK, lateSend := 0, 0
 	n := c.N(260, 5000)
 	for i := 0; i < n; i++ {
@@ -516,6 +544,7 @@ func runC10(c *Ctx) {
 	}
 
 	c10HTTPStream(c, mux, backFx, &id)
+	c10Fragmented(c, mux, backFx, bk, &id)
 	// HTTP front: the request message must reach the backend whatever the body framing
 	for i := 0; i < c.N(40, 400); i++ {
 		m := backFx.NewMsg("Req")
@@ -547,6 +576,82 @@ func runC10(c *Ctx) {
 				got = seen.msgs[0]
 			}
 			c.SpecFail("http-front", in, fmt.Sprintf("%d %v backend got %s", rec.Code, pn, truncS(got, 200)), "the request message", "C10/http-front/request-message", "the backend does not receive the message the HTTP client sent")
+		}
+	}
+}
+
+// c10Fragmented: a gRPC client stream to a proxied method whose bytes arrive in pieces that cut the
+// 5-byte message prefixes (an HTTP/2 peer may put a DATA frame boundary anywhere): the backend
+// receives the same messages, the client the same status.
+func c10Fragmented(c *Ctx, mux http.Handler, backFx *Fixture, bk *c10Backend, id *int) {
+	var wire []byte
+	var want []string
+	for k := 0; k < 3; k++ {
+		m := backFx.NewMsg("Req")
+		m.Set(m.Descriptor().Fields().ByName("name"), protoreflect.ValueOfString(fmt.Sprintf("frag-%d-%s", k, strings.Repeat("x", 7*k))))
+		b, _ := proto.Marshal(m)
+		j, _ := protojson.Marshal(m)
+		want = append(want, string(j))
+		wire = append(wire, grpcFrame(0, b)...)
+	}
+	first := len(wire) / 3
+	scheds := [][]int{{len(wire)}, {2, 3, len(wire)}, {first + 4, 1, len(wire)}, {first + 2, 3, first + 1, 4, len(wire)}, nil}
+	for si, sched := range scheds {
+		if sched == nil { // byte by byte
+			for range wire {
+				sched = append(sched, 1)
+			}
+		}
+		*id++
+		cid := fmt.Sprint("fr", *id)
+		rd := &schedReader{data: append([]byte(nil), wire...), sched: sched, eofWithData: si%2 == 0}
+		r := httptest.NewRequest("POST", "/"+fxPkg+".Back/CS", bodyReadCloser{rd})
+		r.ContentLength = -1
+		r.ProtoMajor, r.ProtoMinor = 2, 0
+		r.Header.Set("Content-Type", "application/grpc+proto")
+		r.Header.Set("Te", "trailers")
+		r.Header.Set("x-c10-id", cid)
+		r.Header.Set("x-c10-script", "1,0,-2,0")
+		in := fmt.Sprintf("gRPC CS through the proxy, 3 messages, body read in pieces of %v", trunc2(sched, 8))
+		c.Eval("proxy-fragmented", in, true)
+		c.Class("proxy:fragmented")
+		ctx, cancel := context.WithTimeout(r.Context(), 10*time.Second)
+		r = r.WithContext(ctx)
+		type served struct {
+			rec *httptest.ResponseRecorder
+			pn  interface{}
+		}
+		done := make(chan served, 1)
+		go func() { rec, pn := serveOn(mux, r); done <- served{rec, pn} }()
+		var rec *httptest.ResponseRecorder
+		var pn interface{}
+		select {
+		case sv := <-done:
+			rec, pn = sv.rec, sv.pn
+			cancel()
+		case <-time.After(4 * time.Second):
+			cancel()
+			c.SpecFail("proxy-fragmented", in, "the call does not end (4 s)", "the 3 messages in order, end-of-stream, status 0", "C10/CS/fragmented-prefix", "a client stream whose message prefixes are cut by read boundaries does not reach the backend as sent")
+			continue
+		}
+		bk.mu.Lock()
+		seen := bk.seen[cid]
+		var got []string
+		closed := false
+		if seen != nil {
+			got, closed = append([]string(nil), seen.msgs...), seen.closed
+		}
+		bk.mu.Unlock()
+		st := rec.Header().Get("Grpc-Status")
+		if st == "" {
+			st = rec.Result().Trailer.Get("Grpc-Status")
+		}
+		ok := pn == nil && len(got) == len(want) && closed && st == "0"
+		for k := 0; ok && k < len(want); k++ {
+			ok = jsonEqual(got[k], want[k], backFx)
+		}
+		if !ok {
+			c.SpecFail("proxy-fragmented", in, fmt.Sprintf("panic=%v backend got %d messages (end-of-stream=%v), grpc-status=%q", pn, len(got), closed, st), "the 3 messages in order, end-of-stream, status 0", "C10/CS/fragmented-prefix", "a client stream whose message prefixes are cut by read boundaries does not reach the backend as sent")
 		}
 	}
 }
